@@ -119,6 +119,20 @@ CHECKS = {
                 "output-kind dispatch of genotype() are exercised by C17/C14 runs, not modelled here.",
         "technique": "Lean 4 proof (row exactness, permutation/dedup lemmas, closed counter-examples by kernel evaluation) + text-level differential correspondence",
     },
+    "C06": {
+        "text": "Lean model of _parse_read (CIGAR walk over M,=,X,I,D,S with quality binning from the regenerated table, phase writes, "
+                "multi-nucleotide merging), of the eligibility filters and of _make_coverage. Machine-checked for every read, locus and position "
+                "(induction over the CIGAR, no length bound): the walk adds exactly one non-insertion observation at p iff ref_start <= p < "
+                "ref_start + reference length (deleted bases count, insertions and soft clips consume nothing); depth over any read list = number "
+                "of spanning reads; depth is invariant under read permutation and under splitting a run or exchanging M/=/X; every observation "
+                "carries the binned mapping quality of its read. Ties: _parse_read on generated tuples and the whole Sample(...) on BAMs written by "
+                "pysam (flags, clips, shared names, both strands) vs the model; oracle from htslib's aligned pairs (depth and counts per position).",
+        "design_ref": "DESIGN.md section 4 (C06)",
+        "note": "PARTIAL at theorem level: depth theorems for parseRead are stated for loci without multi-substitution sites (the merge step is "
+                "covered by the correspondence and the oracle); substitution/reference count exactness and the phase clause are decided by the "
+                "ties and the htslib oracle, not yet by theorems. indelpost support counts are inputs (trusted).",
+        "technique": "Lean 4 proof (structural induction over CIGAR and read lists) + differential correspondence on tuples and pysam-written BAMs",
+    },
 }
 
 NOT_YET = "check not built yet (work in progress; see DESIGN.md section 9 build order)"
